@@ -188,7 +188,7 @@ Proof.
   intros HW. pose proof (Z.quot_rem' now W) as E.
   destruct (Z.le_ge_cases 0 now) as [Hn|Hn].
   - pose proof (Z.rem_bound_pos now W Hn HW). nia.
-  - pose proof (Z.rem_bound_neg_pos now W ltac:(lia) HW). nia.
+  - pose proof (Z.rem_bound_pos_neg now W HW ltac:(lia)). nia.
 Qed.
 
 Lemma quot_le W now : 0 < W -> 0 <= now -> Z.quot now W * W <= now.
@@ -198,7 +198,9 @@ Proof.
 Qed.
 
 Lemma ensure_cases now s :
-  (wend s < now /\ cnt (ensure now s) = 0 /   wend (ensure now s) = Z.quot now (wW (swd s)) * wW (swd s) + wW (swd s) /   swd (ensure now s) = swd s)
+  (wend s < now /\ cnt (ensure now s) = 0 /\
+   wend (ensure now s) = Z.quot now (wW (swd s)) * wW (swd s) + wW (swd s) /\
+   swd (ensure now s) = swd s)
   \/ (now <= wend s /\ ensure now s = s).
 Proof.
   unfold ensure. destruct (wend s <? now) eqn:E.
@@ -211,7 +213,8 @@ Lemma try_inc_cases now wd s :
   let s1 := ensure now (with_wd s wd) in
   let lim := limit_at now wd s in
   (lim <= cnt s1 /\ try_inc now wd s = (s1, Block))
-  \/ (cnt s1 < lim /      try_inc now wd s =
+  \/ (cnt s1 < lim /\
+      try_inc now wd s =
       ({| cnt := cnt s1 + 1; spill := spill s1; wend := wend s1; swd := wd |}, Proceed)).
 Proof.
   intros HW. unfold try_inc, limit_at.
@@ -261,7 +264,8 @@ Section SingleBound.
     destruct I as [I1 I2]. apply Z.ltb_lt in I1. apply Z.leb_le in I2.
     assert (D : (W | we) \/ we <= k * W).
     { destruct A as [->|A]; [exact G | left; exact A]. }
-    destruct D as [[j ->]|D]; nia.
+    destruct D as [[j ->]|D]; [|lia].
+    assert (k < j) by nia. assert (j < k + 1) by nia. lia.
   Qed.
 
   Lemma ensure_InvS s pre lo now :
@@ -345,8 +349,9 @@ Section SingleBound.
       { destruct o as [s|]; cbn [Inv or_init] in *; [exact (proj2 HI) | subst pre; apply InvS_init]. }
       pose proof (inc_step (or_init o) pre lo now wd s' v Hev HIs Hlo ET) as (HS' & HI' & Hb).
       destruct mid as [|x mid]; cbn [app] in HR; inversion HR; subst.
-      + cbn [app]. cbn [s_now s_lim] in *. apply Hb; [|exact G|exact I].
-        unfold is_pass in HP. cbn [s_verdict] in HP. destruct v; try discriminate. reflexivity.
+      + cbn [app]. cbn [s_now s_lim] in *.
+        unfold is_pass in HP. cbn [s_verdict] in HP. destruct v; try discriminate.
+        cbn iota. apply Hb; [reflexivity | exact G | exact I].
       + replace (pre ++ (_ :: mid) ++ [e]) with ((pre ++ [{| s_now := now; s_verdict := v;
                  s_lim := match v with Panic => 0 | _ => limit_at now wd (or_init o) end |}]) ++ mid ++ [e])
           by (rewrite <- app_assoc; reflexivity).
@@ -367,3 +372,463 @@ Section SingleBound.
       pose proof (ensure_InvS s pre lo now HS HI Hlo) as (H1 & _ & H3). split; assumption.
   Qed.
 End SingleBound.
+
+Lemma mono_mono_from l : mono l -> exists lo, mono_from lo l.
+Proof.
+  destruct l as [|t r]; cbn; intros H; [exists 0; exact I|].
+  exists t. split; [lia | exact H].
+Qed.
+
+Lemma single_bounded_fresh W h :
+  0 < W -> const_window W h -> mono (map sev_now h) ->
+  bounded_right W 0 (run_single None h).
+Proof.
+  intros HW HC HM pre e post k HR HP G I.
+  destruct (mono_mono_from _ HM) as [lo Hlo].
+  exact (single_bound W 0 HW h None [] lo eq_refl HC Hlo pre e post k HR HP G I).
+Qed.
+
+Lemma single_bounded_resized W h s1 :
+  0 < W -> wW (swd s1) = W -> 0 <= cnt s1 -> const_window W h -> mono (map sev_now h) ->
+  bounded_right W (wend s1) (run_single (Some s1) h).
+Proof.
+  intros HW HS Hc HC HM pre e post k HR HP G I.
+  destruct (mono_mono_from _ HM) as [lo Hlo].
+  assert (HI : Inv W (wend s1) (Some s1) [] lo).
+  { split; [exact HS|]. constructor.
+    - left. reflexivity.
+    - intros x [].
+    - intros x [].
+    - intros; cbn; lia. }
+  exact (single_bound W (wend s1) HW h (Some s1) [] lo HI HC Hlo pre e post k HR HP G I).
+Qed.
+
+(* --- constant window data, spill-over off: one limit for the whole history --- *)
+
+Definition spill_off (o : option st) : Prop :=
+  match o with None => True | Some s => spill s = 0 /\ wSpillOn (swd s) = false end.
+
+Lemma ensure_spill_off now s :
+  spill s = 0 -> wSpillOn (swd s) = false ->
+  spill (ensure now s) = 0 /\ wSpillOn (swd (ensure now s)) = false.
+Proof.
+  intros H1 H2. unfold ensure. destruct (wend s <? now); cbn; [|split; assumption].
+  rewrite H2. cbn. split; first [assumption | reflexivity].
+Qed.
+
+Lemma run_const_lim wd h :
+  wSpillOn wd = false -> wW wd <> 0 -> const_data wd h ->
+  forall o, spill_off o ->
+    Forall (fun e => s_lim e = scaled_quota (wAllowed wd) (wParts wd)) (run_single o h).
+Proof.
+  intros Hso Hnz. induction h as [|ev r IH]; intros HC o HO; [constructor|].
+  inversion HC as [|? ? Hev HCr]; subst.
+  destruct ev as [now wd'|now]; cbn [run_single step_single].
+  - subst wd'.
+    assert (HS : spill (or_init o) = 0).
+    { destruct o as [s|]; [exact (proj1 HO) | reflexivity]. }
+    pose proof (ensure_spill_off now (with_wd (or_init o) wd) HS Hso) as [E1 E2].
+    destruct (try_inc now wd (or_init o)) as [s' v] eqn:ET. cbn [app].
+    destruct (try_inc_cases now wd (or_init o) Hnz) as [(_ & E)|(_ & E)];
+      rewrite E in ET; inversion ET; subst s' v; clear ET.
+    + constructor.
+      * cbn [s_lim]. unfold limit_at. rewrite E1, Z.add_0_r. reflexivity.
+      * apply IH; [exact HCr|]. cbn. split; assumption.
+    + constructor.
+      * cbn [s_lim]. unfold limit_at. rewrite E1, Z.add_0_r. reflexivity.
+      * apply IH; [exact HCr|]. cbn. split; [exact E1 | exact Hso].
+  - cbn [app]. apply IH; [exact HCr|].
+    destruct o as [s|]; cbn [option_map spill_off] in *; [|exact I].
+    destruct HO as [H1 H2]. unfold peek. destruct (wW (swd s) =? 0); [split; assumption|].
+    apply ensure_spill_off; assumption.
+Qed.
+
+Lemma const_data_window wd h : const_data wd h -> const_window (wW wd) h.
+Proof.
+  intros H. induction H as [|ev r Hev _ IH]; constructor; [|exact IH].
+  destruct ev; [subst; reflexivity | exact I].
+Qed.
+
+Lemma single_window_bound wd h :
+  0 < wW wd -> wSpillOn wd = false -> const_data wd h -> mono (map sev_now h) ->
+  forall k, count (in_right (wW wd) k) (run_single None h)
+            <= scaled_quota (wAllowed wd) (wParts wd).
+Proof.
+  intros HW Hso HC HM k.
+  set (tr := run_single None h). set (L := scaled_quota (wAllowed wd) (wParts wd)).
+  destruct (Z.lt_ge_cases 0 (count (in_right (wW wd) k) tr)) as [Hpos|Hz].
+  2:{ pose proof (scaled_quota_nonneg (wAllowed wd) (wParts wd)). fold L in H. lia. }
+  destruct (count_pos_last _ _ Hpos) as (pre & e & post & Etr & HP & HI & Hz).
+  pose proof (single_bounded_fresh (wW wd) h HW (const_data_window wd h HC) HM) as Hb.
+  specialize (Hb pre e post k Etr HP (or_introl (Z.divide_0_r _)) HI).
+  pose proof (run_const_lim wd h Hso ltac:(lia) HC None I) as Hl. fold tr in Hl.
+  rewrite Etr in Hl. apply Forall_app in Hl. destruct Hl as [_ Hl].
+  inversion Hl as [|? ? He _]; subst.
+  rewrite Etr. replace (pre ++ e :: post) with ((pre ++ [e]) ++ post)
+    by (rewrite <- app_assoc; reflexivity).
+  rewrite count_app, Hz. fold L in He. lia.
+Qed.
+
+(* --- a rejection means the share of the closed grid cell around it is used up --- *)
+
+Lemma count_ext p q tr : (forall t, p t = q t) -> count p tr = count q tr.
+Proof.
+  intros H. induction tr as [|e r IH]; cbn [count]; [reflexivity|].
+  rewrite IH, H. reflexivity.
+Qed.
+
+Section SingleExact.
+  Variable W B : Z.
+  Hypothesis HW : 0 < W.
+
+  Definition cell (we t : Z) : bool := (we - W <=? t) && (t <=? we).
+
+  Definition InvE (s : st) (pre : list sentry) (lo : Z) : Prop :=
+    wend s = B \/
+    ((W | wend s) /\ wend s - W <= lo /\ cnt s <= count (cell (wend s)) pre).
+
+  Definition InvEo (o : option st) (pre : list sentry) (lo : Z) : Prop :=
+    match o with
+    | None => B = 0 /\ pre = []
+    | Some s => wW (swd s) = W /\ InvE s pre lo
+    end.
+
+  (* after the window was brought up to date at an instant past B the state is
+     on the grid *)
+  Lemma ensure_InvE s pre lo now :
+    wW (swd s) = W -> InvE s pre lo -> 0 <= lo <= now ->
+    InvE (ensure now s) pre now /\ wW (swd (ensure now s)) = W /\
+    (B < now ->
+     (W | wend (ensure now s)) /\ wend (ensure now s) - W <= now <= wend (ensure now s) /\
+     cnt (ensure now s) <= count (cell (wend (ensure now s))) pre).
+  Proof.
+    intros HS HI Hlo.
+    destruct (ensure_cases now s) as [(Hlt & Hc & Hw & Hd)|(Hle & ->)].
+    - rewrite HS in Hw. pose proof (quot_gt W now HW) as Hq.
+      pose proof (quot_le W now HW ltac:(lia)) as Hq'.
+      assert (HA : (W | wend (ensure now s)) /\
+                   wend (ensure now s) - W <= now <= wend (ensure now s) /\
+                   cnt (ensure now s) <= count (cell (wend (ensure now s))) pre).
+      { rewrite Hw, Hc. split; [exists (Z.quot now W + 1); ring|].
+        split; [lia|]. apply count_nonneg. }
+      split; [right; destruct HA as (A1 & A2 & A3); repeat split; try assumption; lia|].
+      split; [rewrite Hd; exact HS|]. intros _. exact HA.
+    - split; [|split; [exact HS|]].
+      + destruct HI as [HI|(A1 & A2 & A3)]; [left; exact HI|].
+        right. repeat split; try assumption. lia.
+      + intros HB. destruct HI as [HI|(A1 & A2 & A3)]; [lia|].
+        repeat split; try assumption; lia.
+  Qed.
+
+  Lemma single_exact h : forall o pre lo,
+    InvEo o pre lo -> 0 <= lo -> const_window W h -> mono_from lo (map sev_now h) ->
+    forall mid e post, run_single o h = mid ++ e :: post ->
+      s_verdict e = Block -> B < s_now e ->
+      exists j, in_closed W j (s_now e) = true /\
+                s_lim e <= count (in_closed W j) (pre ++ mid).
+  Proof.
+    induction h as [|ev r IH]; intros o pre lo HI H0 HC HM mid e post HR HV HB.
+    { cbn in HR. destruct mid; discriminate. }
+    inversion HC as [|? ? Hev HCr]; subst. cbn [map mono_from] in HM. destruct HM as [Hlo HMr].
+    destruct ev as [now wd|now]; cbn [sev_now] in *.
+    - cbn [run_single step_single] in HR.
+      destruct (try_inc now wd (or_init o)) as [s' v] eqn:ET. cbn [app] in HR.
+      assert (HIs : InvE (or_init o) pre lo).
+      { destruct o as [s|]; cbn [InvEo or_init] in *; [exact (proj2 HI)|].
+        left. cbn. symmetry. exact (proj1 HI). }
+      assert (Hnz : wW wd <> 0) by lia.
+      assert (HIw : InvE (with_wd (or_init o) wd) pre lo) by exact HIs.
+      pose proof (ensure_InvE (with_wd (or_init o) wd) pre lo now Hev HIw ltac:(lia))
+        as (HI1 & HS1 & HA).
+      set (s1 := ensure now (with_wd (or_init o) wd)) in *.
+      destruct (try_inc_cases now wd (or_init o) Hnz) as [(Hc & E)|(Hc & E)];
+        fold s1 in Hc, E; rewrite E in ET; inversion ET; subst s' v; clear ET.
+      + (* this request was rejected *)
+        destruct mid as [|x mid]; cbn [app] in HR; inversion HR; subst.
+        * cbn [s_now s_lim s_verdict] in *. rewrite app_nil_r.
+          destruct (HA HB) as ((j & Hj) & Hin & Hcnt).
+          exists (j - 1). split.
+          -- unfold in_closed. apply andb_true_intro. split; [apply Z.leb_le | apply Z.leb_le]; lia.
+          -- rewrite (count_ext (in_closed W (j - 1)) (cell (wend s1))); [lia|].
+             intros t. unfold in_closed, cell. rewrite Hj.
+             replace ((j - 1) * W) with (j * W - W) by ring.
+             replace ((j - 1 + 1) * W) with (j * W) by ring. reflexivity.
+        * replace (pre ++ _ :: mid) with ((pre ++ [{| s_now := now; s_verdict := Block;
+                 s_lim := limit_at now wd (or_init o) |}]) ++ mid)
+            by (rewrite <- app_assoc; reflexivity).
+          eapply (IH (Some s1) _ now); try eassumption; [|lia].
+          cbn [InvEo]. split; [exact HS1|].
+          destruct HI1 as [HI1|(A1 & A2 & A3)]; [left; exact HI1|].
+          right. repeat split; try assumption.
+          rewrite count_app, count_nonpass by reflexivity. lia.
+      + (* this request proceeded *)
+        destruct mid as [|x mid]; cbn [app] in HR; inversion HR; subst.
+        * cbn [s_verdict] in HV. discriminate.
+        * replace (pre ++ _ :: mid) with ((pre ++ [{| s_now := now; s_verdict := Proceed;
+                 s_lim := limit_at now wd (or_init o) |}]) ++ mid)
+            by (rewrite <- app_assoc; reflexivity).
+          eapply (IH (Some _) _ now); try eassumption; [|lia].
+          cbn [InvEo swd]. split; [exact Hev|].
+          destruct HI1 as [HI1|(A1 & A2 & A3)]; [left; exact HI1|].
+          right. cbn [wend cnt]. repeat split; try assumption.
+          rewrite count_app.
+          assert (Hin : now <= wend s1).
+          { destruct (ensure_cases now (with_wd (or_init o) wd)) as [(Hlt & _ & Hw & _)|(Hle & Eq)].
+            - fold s1 in Hw. cbn [swd with_wd] in Hw. rewrite Hev in Hw.
+              pose proof (quot_gt W now HW). lia.
+            - fold s1 in Eq. rewrite Eq. exact Hle. }
+          assert (Hone : count (cell (wend s1))
+                     [{| s_now := now; s_verdict := Proceed; s_lim := limit_at now wd (or_init o) |}] = 1).
+          { cbn [count s_now]. unfold is_pass, cell. cbn [s_verdict verdict_eqb andb].
+            replace (wend s1 - W <=? now) with true by (symmetry; apply Z.leb_le; lia).
+            replace (now <=? wend s1) with true by (symmetry; apply Z.leb_le; lia).
+            reflexivity. }
+          rewrite Hone. lia.
+    - cbn [run_single step_single app] in HR.
+      eapply (IH (option_map (peek now) o) pre now); try eassumption; [|lia].
+      destruct o as [s|]; cbn [InvEo option_map] in *; [|exact HI].
+      destruct HI as [HS HI]. unfold peek.
+      replace (wW (swd s) =? 0) with false by (symmetry; apply Z.eqb_neq; lia).
+      pose proof (ensure_InvE s pre lo now HS HI ltac:(lia)) as (H1 & H2 & _).
+      split; assumption.
+  Qed.
+End SingleExact.
+
+(* ================================================================== *)
+(** * D. The store: a key sees only its own sub-history                 *)
+
+Lemma entries_of_app k a b : entries_of k (a ++ b) = entries_of k a ++ entries_of k b.
+Proof. unfold entries_of. apply flat_map_app. Qed.
+
+Lemma project_cons k now a r :
+  project k ((now, a) :: r) =
+  match a with
+  | AInc k' wd => if key_eqb k k' then [SInc now wd] else []
+  | APeek => [SPeek now]
+  end ++ project k r.
+Proof. reflexivity. Qed.
+
+Lemma project_run h : forall m k, key_valid k = true ->
+  entries_of k (run_map m h) = run_single (get m k) (project k h).
+Proof.
+  induction h as [|[now a] r IH]; intros m k Hk; [reflexivity|].
+  rewrite project_cons. cbn [run_map]. destruct a as [k' wd|].
+  - cbn [step_map]. destruct (key_valid k') eqn:V.
+    + destruct (try_inc now wd (or_init (get m k'))) as [s' v] eqn:ET.
+      rewrite entries_of_app. unfold entries_of at 1. cbn [flat_map e_key e_now e_verdict e_lim].
+      destruct (key_eqb k k') eqn:E.
+      * apply key_eqb_eq in E. subst k'. cbn [app run_single step_single].
+        rewrite ET. cbn [app]. rewrite IH by exact Hk. rewrite get_set_same. reflexivity.
+      * cbn [app]. rewrite IH by exact Hk. rewrite get_set_other; [reflexivity|].
+        intros ->. rewrite key_eqb_refl in E. discriminate.
+    + rewrite entries_of_app. unfold entries_of at 1. cbn [flat_map e_key].
+      destruct (key_eqb k k') eqn:E.
+      * apply key_eqb_eq in E. subst k'. congruence.
+      * cbn [app]. apply IH. exact Hk.
+  - cbn [step_map app]. rewrite IH by exact Hk.
+    cbn [run_single step_single app]. rewrite get_map_peek. reflexivity.
+Qed.
+
+Lemma step_map_frame m now k wd k' :
+  k' <> k -> get (fst (step_map m now (AInc k wd))) k' = get m k'.
+Proof.
+  intros Hn. cbn [step_map]. destruct (key_valid k); [|reflexivity].
+  destruct (try_inc now wd (or_init (get m k))) as [s' v]. cbn [fst].
+  apply get_set_other. exact Hn.
+Qed.
+
+Lemma run_map_app h1 : forall m h2,
+  run_map m (h1 ++ h2) = run_map m h1 ++ run_map (final_map m h1) h2.
+Proof.
+  induction h1 as [|[now a] r IH]; intros m h2; [reflexivity|].
+  cbn [app run_map final_map]. destruct (step_map m now a) as [m' es]. cbn [fst].
+  rewrite IH, app_assoc. reflexivity.
+Qed.
+
+(* counters never go negative *)
+Definition cnt_nonneg (m : smap) : Prop := forall k s, get m k = Some s -> 0 <= cnt s.
+
+Lemma ensure_cnt_nonneg now s : 0 <= cnt s -> 0 <= cnt (ensure now s).
+Proof. intros H. unfold ensure. destruct (wend s <? now); cbn; lia. Qed.
+
+Lemma try_inc_cnt_nonneg now wd s : 0 <= cnt s -> 0 <= cnt (fst (try_inc now wd s)).
+Proof.
+  intros H. unfold try_inc. destruct (wW wd =? 0); [exact H|].
+  pose proof (ensure_cnt_nonneg now (with_wd s wd) H).
+  destruct (_ <=? _); cbn; lia.
+Qed.
+
+Lemma step_cnt_nonneg m now a : cnt_nonneg m -> cnt_nonneg (fst (step_map m now a)).
+Proof.
+  intros H k s. destruct a as [k' wd|]; cbn [step_map].
+  - destruct (key_valid k'); [|apply H].
+    destruct (try_inc now wd (or_init (get m k'))) as [s' v] eqn:ET. cbn [fst].
+    destruct (key_eqb k k') eqn:E.
+    + apply key_eqb_eq in E. subst k'. rewrite get_set_same. intros [= <-].
+      replace s' with (fst (try_inc now wd (or_init (get m k)))) by (rewrite ET; reflexivity).
+      apply try_inc_cnt_nonneg. destruct (get m k) eqn:G; cbn; [eapply H; exact G | lia].
+    + rewrite get_set_other; [apply H|]. intros ->. rewrite key_eqb_refl in E. discriminate.
+  - cbn [fst]. rewrite get_map_peek. destruct (get m k) eqn:G; cbn; [|discriminate].
+    intros [= <-]. unfold peek. destruct (wW (swd s0) =? 0); [eapply H; exact G|].
+    apply ensure_cnt_nonneg. eapply H. exact G.
+Qed.
+
+Lemma final_cnt_nonneg h : forall m, cnt_nonneg m -> cnt_nonneg (final_map m h).
+Proof.
+  induction h as [|[now a] r IH]; intros m H; [exact H|].
+  cbn [final_map]. apply IH. apply step_cnt_nonneg. exact H.
+Qed.
+
+Lemma cnt_nonneg_empty : cnt_nonneg [].
+Proof. intros k s. discriminate. Qed.
+
+(* ================================================================== *)
+(** * E. The plugin                                                     *)
+
+(* shape of the key OnRequest hands to the store *)
+Lemma plugin_pre_limit r hs k rb :
+  plugin_pre r hs = PreLimit k rb ->
+  kLimiter k = rName r /\
+  match rGqa r with
+  | None => kGrouped k = false /\ kGroup k = s_ungrouped
+  | Some g => kGrouped k = true /\
+              kGroup k = lower (gHeader g) ++ [58] ++ trim (header hs (gHeader g))
+  end.
+Proof.
+  unfold plugin_pre. destruct (rGqa r) as [g|].
+  - destruct (find_alloc (gGroups g) (header hs (gHeader g))).
+    + intros [= <- _]. cbn. repeat split.
+    + destruct (str_eqb (gDefault g) s_allow); [discriminate|].
+      destruct (str_eqb (gDefault g) s_block); [discriminate|].
+      destruct (str_eqb (gDefault g) s_use_default); [|discriminate].
+      intros [= <- _]. cbn. repeat split.
+  - intros [= <- _]. cbn. repeat split.
+Qed.
+
+Lemma plugin_pre_done_early r hs s :
+  plugin_pre r hs = PreDone (PEarly s) -> s = status_of r.
+Proof.
+  unfold plugin_pre. destruct (rGqa r) as [g|]; [|discriminate].
+  destruct (find_alloc _ _); [discriminate|].
+  destruct (str_eqb (gDefault g) s_allow); [discriminate|].
+  destruct (str_eqb (gDefault g) s_block); [intros [= <-]; reflexivity|].
+  destruct (str_eqb (gDefault g) s_use_default); discriminate.
+Qed.
+
+Lemma plugin_status m now r hs m' s :
+  plugin_step m now r hs = (m', PEarly s) -> s = status_of r.
+Proof.
+  unfold plugin_step. destruct (plugin_pre r hs) as [o|k rb] eqn:E.
+  - intros [= _ ->]. exact (plugin_pre_done_early r hs s E).
+  - destruct (step_map m now (AInc k (wd_of_remedy r rb))) as [m2 es].
+    destruct es as [|e es]; [discriminate|].
+    destruct (e_verdict e); intros [= _ H]; try discriminate. congruence.
+Qed.
+
+Lemma plugin_keys_distinct r r' hs hs' k k' rb rb' :
+  plugin_pre r hs = PreLimit k rb -> plugin_pre r' hs' = PreLimit k' rb' ->
+  (rName r <> rName r' -> k <> k') /\
+  (forall g, rGqa r = Some g -> rGqa r' = Some g ->
+     trim (header hs (gHeader g)) <> trim (header hs' (gHeader g)) -> k <> k').
+Proof.
+  intros H H'.
+  destruct (plugin_pre_limit r hs k rb H) as [L G].
+  destruct (plugin_pre_limit r' hs' k' rb' H') as [L' G'].
+  split.
+  - intros Hn E. subst k'. congruence.
+  - intros g Hg Hg' Hn E. subst k'. rewrite Hg in G. rewrite Hg' in G'.
+    destruct G as [_ G]. destruct G' as [_ G']. rewrite G in G'.
+    apply app_inv_head in G'. apply app_inv_head in G'. contradiction.
+Qed.
+
+(* default behaviours that decide without a counter leave the store alone *)
+Lemma plugin_done_no_effect m now r hs o :
+  plugin_pre r hs = PreDone o -> plugin_step m now r hs = (m, o).
+Proof. intros H. unfold plugin_step. rewrite H. reflexivity. Qed.
+
+(* ================================================================== *)
+(** * F. Store-level statements                                         *)
+
+Lemma invalid_key_no_effect m now k wd :
+  key_valid k = false -> fst (step_map m now (AInc k wd)) = m.
+Proof. intros H. cbn [step_map]. rewrite H. reflexivity. Qed.
+
+Lemma try_inc_verdict now wd s :
+  wW wd <> 0 ->
+  let s1 := ensure now (with_wd s wd) in
+  (snd (try_inc now wd s) = Block <-> limit_at now wd s <= cnt s1) /\
+  (snd (try_inc now wd s) = Proceed <-> cnt s1 < limit_at now wd s).
+Proof.
+  intros HW s1.
+  destruct (try_inc_cases now wd s HW) as [(Hc & E)|(Hc & E)]; fold s1 in Hc, E;
+    rewrite E; cbn [snd]; split; split; intros H; try reflexivity; try discriminate; lia.
+Qed.
+
+Lemma map_grid_bound h k W :
+  0 < W -> key_valid k = true ->
+  const_window W (project k h) -> mono (map sev_now (project k h)) ->
+  bounded_right W 0 (entries_of k (run_map [] h)).
+Proof.
+  intros HW Hk HC HM. rewrite (project_run h [] k Hk).
+  exact (single_bounded_fresh W (project k h) HW HC HM).
+Qed.
+
+Lemma map_grid_bound_const h k wd :
+  0 < wW wd -> wSpillOn wd = false -> key_valid k = true ->
+  const_data wd (project k h) -> mono (map sev_now (project k h)) ->
+  forall j, count (in_right (wW wd) j) (entries_of k (run_map [] h))
+            <= scaled_quota (wAllowed wd) (wParts wd).
+Proof.
+  intros HW Hs Hk HC HM j. rewrite (project_run h [] k Hk).
+  exact (single_window_bound wd (project k h) HW Hs HC HM j).
+Qed.
+
+Lemma map_grid_bound_after_resize h1 h2 k W s1 :
+  0 < W -> key_valid k = true ->
+  get (final_map [] h1) k = Some s1 -> wW (swd s1) = W ->
+  const_window W (project k h2) -> mono (map sev_now (project k h2)) ->
+  bounded_right W (wend s1) (entries_of k (run_map (final_map [] h1) h2)).
+Proof.
+  intros HW Hk HG HS HC HM.
+  rewrite (project_run h2 (final_map [] h1) k Hk), HG.
+  apply single_bounded_resized; try assumption.
+  exact (final_cnt_nonneg h1 [] cnt_nonneg_empty k s1 HG).
+Qed.
+
+Lemma map_rejected_used_up h k W pre e post :
+  0 < W -> key_valid k = true ->
+  const_window W (project k h) -> mono_from 0 (map sev_now (project k h)) ->
+  entries_of k (run_map [] h) = pre ++ e :: post ->
+  s_verdict e = Block -> 0 < s_now e ->
+  exists j, in_closed W j (s_now e) = true /\ s_lim e <= count (in_closed W j) pre.
+Proof.
+  intros HW Hk HC HM HR HV HB.
+  rewrite (project_run h [] k Hk) in HR.
+  exact (single_exact W 0 HW (project k h) None [] 0 (conj eq_refl eq_refl) (Z.le_refl 0)
+           HC HM pre e post HR HV HB).
+Qed.
+
+(* the left-closed half fails: instants 1, 3, 4, 4, window 3, limit 2 *)
+Lemma left_closed_half_fails :
+  exists h k W, 0 < W /\ key_valid k = true /\ const_window W (project k h) /\
+    mono (map sev_now (project k h)) /\
+    ~ bounded_left W 0 (entries_of k (run_map [] h)).
+Proof.
+  set (k := {| kLimiter := [65]; kGrouped := false; kGroup := [] |}).
+  set (wd := {| wW := 3; wAllowed := 2; wParts := scale; wSpillOn := false; wRenew := 0 |}).
+  exists [(1, AInc k wd); (3, AInc k wd); (4, AInc k wd); (4, AInc k wd)], k, 3.
+  split; [lia|]. split; [reflexivity|]. split; [repeat constructor|].
+  split; [cbn; lia|].
+  intros H.
+  specialize (H [ {| s_now := 1; s_verdict := Proceed; s_lim := 2 |};
+                  {| s_now := 3; s_verdict := Proceed; s_lim := 2 |};
+                  {| s_now := 4; s_verdict := Proceed; s_lim := 2 |} ]
+                {| s_now := 4; s_verdict := Proceed; s_lim := 2 |} [] 1
+                eq_refl eq_refl (or_introl (Z.divide_0_r 3)) eq_refl).
+  vm_compute in H. apply H. reflexivity.
+Qed.
+
+Lemma limit_is_ceiling total h :
+  0 <= total <= max_i64 -> 0 <= h <= 10000 ->
+  scaled_quota total (h * 100000) = limit_exact total h.
+Proof. exact (scaled_quota_hundredths total h). Qed.
